@@ -11,7 +11,7 @@ LEVEL = "exploration"
 RULE = ("per model, sequences over its documented enter/leave pairs (golden/regions.json, 150 pairs): "
         "(a) exhaustive: every pair alone and every ordered couple of distinct pairs of one model nested at "
         "depth 2, in and out; (b) nesting depths 1..513 alternating two pairs (512 accepted, 513 refused); "
-        "(c) random histories with thread state changes, single mismatched leaves, leaves on an empty stack, "
+        "(c) random histories over 1-2 looms x 1-2 processes (and a second profile with the breakdown option -b) with thread state changes, single mismatched leaves, leaves on an empty stack, "
         "region events of threads not in the state the model requires, traces ending with open regions with "
         "and without -l.  Oracle: reference verdict vs exit status; for accepted traces the subsystem/function "
         "row shows, after every event time, the value whose PCF label is the documented label of the innermost "
